@@ -145,6 +145,9 @@ class World:
             except IndexError as e: raise PyExc(IndexError, e.args)
             except KeyError as e: raise PyExc(KeyError, e.args)
             except TypeError as e: raise PyExc(TypeError, e.args)
+        if isinstance(obj, types.MappingProxyType) and (is_plain(k) or isinstance(k, type)):
+            try: return obj[k]
+            except KeyError as e: raise PyExc(KeyError, e.args)
         if isinstance(obj, type) and issubclass(obj, enum.Enum) and isinstance(k, str):
             try: return obj[k]
             except KeyError as e: raise PyExc(KeyError, e.args)
